@@ -1,5 +1,6 @@
 import Pendulum.Model.Pickle
 import Pendulum.Proofs.Pickle
+import Pendulum.Proofs.PickleGen
 /-! # C14 — pickle, copy and deepcopy reproduce every pendulum value exactly
 
 Statements are about `Model/Pickle.lean` (what each type hands to the pickle/copy machinery and what its
@@ -250,5 +251,338 @@ theorem date_roundtrip (y m d : Int) : rebuildDate (reduceDate y m d) = some (y,
   omega
 
 example : rebuildDate (reduceDate 2020 2 29) = some (2020, 2, 29) := by decide
+
+/-! ### the state hooks as written in the source
+
+`Gen/Pickle.lean` is regenerated from `_getstate` / `__reduce__` / `__reduce_ex__` / `__deepcopy__` / `__getinitargs__` and the
+rebuild helpers of datetime.py, date.py, time.py, duration.py, interval.py, tz/timezone.py, tz/__init__.py on every run
+(tools/gen_pickle.py); the theorems below (proofs in `Proofs/PickleGen.lean`) state that, read through the small interface of
+that file, the generated hooks *are* `Model/Pickle.lean`'s `reduce…` / `rebuild…` / `deepcopy…`, for all inputs.  What is not
+pendulum source is a hypothesis (`DurOk`, `FixedOk`, `NamedOk`, `DateOk`), each shown satisfiable. -/
+section Generated
+open Pendulum.PickleGen
+open Pendulum.Gen.Pickle (Val DateTimeInst DateInst TimeInst DurationInst IntervalInst FixedTimezoneInst TimezoneInst)
+
+/-- which class defines which pickle/copy hook (and the MRO, the instance slots, the named rebuild helpers): a hook
+    that appears, disappears or moves to another class changes one of these tables -/
+theorem hooks_source_eq_model :
+    (Gen.Pickle.DateTime.hooks = [("__getnewargs__", "DateTime"), ("__reduce__", "DateTime"), ("__reduce_ex__", "DateTime"),
+        ("__deepcopy__", "DateTime")] ∧
+      Gen.Pickle.DateTime.mro = ["DateTime", "datetime", "Date", "FormattableMixin", "date", "object"]) ∧
+    (Gen.Pickle.Date.hooks = [] ∧ Gen.Pickle.Date.mro = ["Date", "FormattableMixin", "date", "object"]) ∧
+    (Gen.Pickle.Time.hooks = [("__getnewargs__", "Time"), ("__reduce__", "Time"), ("__reduce_ex__", "Time")] ∧
+      Gen.Pickle.Time.mro = ["Time", "FormattableMixin", "time", "object"]) ∧
+    Gen.Pickle.Duration.hooks = [("__reduce__", "Duration"), ("__deepcopy__", "Duration")] ∧
+    Gen.Pickle.AbsoluteDuration.hooks = [("__reduce__", "Duration"), ("__deepcopy__", "AbsoluteDuration")] ∧
+    Gen.Pickle.Interval.hooks = [("__reduce__", "Interval"), ("__reduce_ex__", "Interval"), ("__deepcopy__", "Interval")] ∧
+    Gen.Pickle.FixedTimezone.hooks = [("__getinitargs__", "FixedTimezone")] ∧
+    (Gen.Pickle.Timezone.hooks = [] ∧
+      Gen.Pickle.Timezone.mro = ["Timezone", "ZoneInfo", "tzinfo", "PendulumTimezone", "object"]) ∧
+    Gen.Pickle.helpers = ["_rebuild_with_fold"] :=
+  ⟨DateTime.hooks_source_eq_model, Date.hooks_source_eq_model, Time.hooks_source_eq_model,
+   Duration.hooks_source_eq_model.1, AbsoluteDuration.hooks_source_eq_model.1, Interval.hooks_source_eq_model.1,
+   FixedTimezone.hooks_source_eq_model.1, Timezone.hooks_source_eq_model, helpers_source_eq_model⟩
+
+/-- the attributes `__new__` / `__init__` assign (what `__dict__` carries through `Duration.__reduce__` and
+    `tzinfo.__reduce__`) -/
+theorem slots_source_eq_model :
+    Gen.Pickle.Duration.slots = ["_total", "_microseconds", "_seconds", "_days", "_remaining_days", "_weeks", "_months",
+      "_years", "_signature"] ∧
+    Gen.Pickle.AbsoluteDuration.slots = ["_total", "_microseconds", "_seconds", "_days", "_weeks", "_remaining_days",
+      "_months", "_years"] ∧
+    Gen.Pickle.Interval.slots = ["_invert", "_absolute", "_start", "_end", "_delta"] ∧
+    Gen.Pickle.FixedTimezone.slots = ["_name", "_offset", "_utcoffset"] :=
+  ⟨Duration.hooks_source_eq_model.2.2, AbsoluteDuration.hooks_source_eq_model.2.2, Interval.hooks_source_eq_model.2.2,
+   FixedTimezone.hooks_source_eq_model.2.2⟩
+
+/-! #### DateTime -/
+
+/-- `DateTime.__reduce_ex__` as written (for every protocol): the class on `_getstate`'s eight values when fold = 0, the
+    helper `_rebuild_with_fold` on `(self.__class__, *state)` when fold = 1 — the model's `reduceDT`; `__reduce__` is
+    `__reduce_ex__(2)` -/
+theorem datetime_reduce_source_eq_model (enc : Enc7) (i : DateTimeInst Tz) (p : Int) :
+    absRedDT enc (Gen.Pickle.DateTime.pickle_reduce i p) = some (reduceDT (absDT enc i)) ∧
+    Gen.Pickle.DateTime.__reduce__ i = Gen.Pickle.DateTime.pickle_reduce i 2 :=
+  DateTime.reduce_source_eq_model enc i p
+
+/-- the call made on unpickling — `cls(*state)` or, through the generated body of `_rebuild_with_fold`,
+    `cls(*state, fold=1)` on the instance's own class — is the model's `rebuildDT` (`tr`: how the tzinfo travels) -/
+theorem datetime_rebuild_args_source_eq_model (tr : Tz → Tz) (enc : Enc7) (i : DateTimeInst Tz) (p : Int) :
+    applyDT tr enc (Gen.Pickle.DateTime.pickle_reduce i p) =
+      some (rebuildDT ((reduceDT (absDT enc i)).1, ⟨(reduceDT (absDT enc i)).2.w, (reduceDT (absDT enc i)).2.tz.map tr⟩)) :=
+  DateTime.rebuild_args_source_eq_model tr enc i p
+
+/-- `DateTime.__deepcopy__` as written: the class on the seven fields, `tzinfo=` the instance's tzinfo object itself
+    (not `.tz`, not a copy), `fold=` its fold — the model's `deepcopyDT`; `copy.copy` is the reduce path -/
+theorem datetime_deepcopy_source_eq_model (enc : Enc7) (i : DateTimeInst Tz) :
+    copiedDT enc (Gen.Pickle.DateTime.deepcopy i) = some (deepcopyDT (absDT enc i)) ∧
+    copiedDT enc (Gen.Pickle.DateTime.copy i) = some (copyDT (absDT enc i)) :=
+  DateTime.deepcopy_source_eq_model enc i
+
+/-- headline, over the generated hooks: pickle (any protocol), copy and deepcopy of any DateTime give back a value
+    with the same wall clock, offset, instant, fold (where it matters) and tzinfo -/
+theorem dt_roundtrip_generated (enc : Enc7) (i : DateTimeInst Tz) (p : Int) :
+    (applyDT tzTravel enc (Gen.Pickle.DateTime.pickle_reduce i p)).map DT.obs = some (absDT enc i).obs ∧
+    (copiedDT enc (Gen.Pickle.DateTime.copy i)).map DT.obs = some (absDT enc i).obs ∧
+    (copiedDT enc (Gen.Pickle.DateTime.deepcopy i)).map DT.obs = some (absDT enc i).obs := by
+  refine ⟨?_, ?_, ?_⟩
+  · rw [datetime_rebuild_args_source_eq_model]
+    exact congrArg some (dt_pickle_obs (absDT enc i))
+  · rw [(datetime_deepcopy_source_eq_model enc i).2]; exact congrArg some (dt_copy_obs _)
+  · rw [(datetime_deepcopy_source_eq_model enc i).1]; rfl
+
+/-- … for every model value `v`, given any field decoding of the wall clock (e.g. the calendar one) -/
+theorem dt_roundtrip_generated_all (enc : Enc7) (dec : Int → Int × Int × Int × Int × Int × Int × Int)
+    (h : ∀ w, enc (dec w).1 (dec w).2.1 (dec w).2.2.1 (dec w).2.2.2.1 (dec w).2.2.2.2.1 (dec w).2.2.2.2.2.1 (dec w).2.2.2.2.2.2 = w)
+    (v : DT) (p : Int) :
+    (applyDT tzTravel enc (Gen.Pickle.DateTime.pickle_reduce (instDT dec v) p)).map DT.obs = some v.obs ∧
+    (copiedDT enc (Gen.Pickle.DateTime.copy (instDT dec v))).map DT.obs = some v.obs ∧
+    (copiedDT enc (Gen.Pickle.DateTime.deepcopy (instDT dec v))).map DT.obs = some v.obs := by
+  have := dt_roundtrip_generated enc (instDT dec v) p
+  rwa [absDT_instDT enc dec h v] at this
+
+/-- the hypothesis on the encoding is satisfiable by the calendar encoding of the other models -/
+theorem dt_encoding_satisfiable (w : Int) :
+    encCivil (decCivil w).1 (decCivil w).2.1 (decCivil w).2.2.1 (decCivil w).2.2.2.1 (decCivil w).2.2.2.2.1
+      (decCivil w).2.2.2.2.2.1 (decCivil w).2.2.2.2.2.2 = w := encCivil_decCivil w
+
+def iSecond : DateTimeInst Tz := ⟨2013, 10, 27, 2, 30, 0, 0, true, some (.named [80] zOverlap), none, none, fun _ => ⟨.selfClass, [], []⟩, true⟩
+example : (Gen.Pickle.DateTime.pickle_reduce iSecond 4).callable = .named "_rebuild_with_fold" ∧
+    ((Gen.Pickle.DateTime.pickle_reduce iSecond 4).args.take 3 = [.selfClass, .int 2013, .int 10]) := ⟨rfl, rfl⟩
+example : (Gen.Pickle.DateTime.pickle_reduce { iSecond with fold := false } 0).callable = .selfClass := rfl
+example : (Gen.Pickle.callHelper "_rebuild_with_fold" [Val.selfClass, Val.int 1, (Val.none : Val Tz)]).map (·.kwargs) =
+    some [("fold", .int 1)] := rfl
+example : (applyDT id (fun _ _ _ h mi _ _ => h * 60 + mi) (Gen.Pickle.DateTime.pickle_reduce iSecond 2)).map (·.fold) = some true := rfl
+
+/-! #### Time, Date -/
+
+theorem time_reduce_source_eq_model (enc : Enc4) (i : TimeInst Tz) (p : Int) :
+    absRedTime id enc (Gen.Pickle.Time.pickle_reduce i p) = some (reduceTime (absTime enc i)) ∧
+    Gen.Pickle.Time.__reduce__ i = Gen.Pickle.Time.pickle_reduce i 2 :=
+  Time.reduce_source_eq_model enc i p
+
+theorem time_rebuild_args_source_eq_model (tr : Tz → Tz) (enc : Enc4) (i : TimeInst Tz) (p : Int) :
+    applyTime tr enc (Gen.Pickle.Time.pickle_reduce i p) =
+      some (rebuildTime ((reduceTime (absTime enc i)).1, (reduceTime (absTime enc i)).2.map tr)) :=
+  Time.rebuild_args_source_eq_model tr enc i p
+
+/-- `Time` has neither `__copy__` nor `__deepcopy__`: both are `copy._reconstruct` on `__reduce_ex__(4)` -/
+theorem time_deepcopy_source_eq_model (enc : Enc4) (i : TimeInst Tz) :
+    copiedTime enc (Gen.Pickle.Time.deepcopy i) = some (deepcopyTime (absTime enc i)) ∧
+    copiedTime enc (Gen.Pickle.Time.copy i) = some (rebuildTime (reduceTime (absTime enc i))) :=
+  Time.deepcopy_source_eq_model enc i
+
+theorem time_roundtrip_generated (enc : Enc4) (i : TimeInst Tz) (p : Int) :
+    (applyTime tzTravel enc (Gen.Pickle.Time.pickle_reduce i p)).map TimeV.obs = some (absTime enc i).obs ∧
+    (copiedTime enc (Gen.Pickle.Time.copy i)).map TimeV.obs = some (absTime enc i).obs ∧
+    (copiedTime enc (Gen.Pickle.Time.deepcopy i)).map TimeV.obs = some (absTime enc i).obs := by
+  refine ⟨?_, ?_, ?_⟩
+  · rw [time_rebuild_args_source_eq_model]; exact congrArg some (time_pickle_obs (absTime enc i))
+  · rw [(time_deepcopy_source_eq_model enc i).2]; rfl
+  · rw [(time_deepcopy_source_eq_model enc i).1]; exact congrArg some (time_deepcopy_obs _)
+
+example : Gen.Pickle.Time._get_state (⟨1, 2, 3, 4, true, (none : Option Tz), fun _ => ⟨.selfClass, [], []⟩, true⟩) 3 =
+    [.int 1, .int 2, .int 3, .int 4, .none] := rfl
+
+/-- `Date` defines no hook: `datetime.date.__reduce__` (hypothesis `DateOk`) is what the machinery gets -/
+theorem date_reduce_source_eq_model {ρ : Type} (i : DateInst ρ) (p : Int) (ok : DateOk i) :
+    absRedDate (Gen.Pickle.Date.pickle_reduce i p) = some (reduceDate i.year i.month i.day) :=
+  Date.reduce_source_eq_model i p ok
+
+theorem date_rebuild_args_source_eq_model {ρ : Type} (i : DateInst ρ) (p : Int) (ok : DateOk i) :
+    (absRedDate (Gen.Pickle.Date.pickle_reduce i p)).bind rebuildDate = rebuildDate (reduceDate i.year i.month i.day) :=
+  Date.rebuild_args_source_eq_model i p ok
+
+theorem date_deepcopy_source_eq_model {ρ : Type} (i : DateInst ρ) (ok : DateOk i) :
+    copiedDate (Gen.Pickle.Date.deepcopy i) = rebuildDate (reduceDate i.year i.month i.day) ∧
+    copiedDate (Gen.Pickle.Date.copy i) = rebuildDate (reduceDate i.year i.month i.day) :=
+  Date.deepcopy_source_eq_model i ok
+
+theorem date_roundtrip_generated (y m d p : Int) :
+    (absRedDate (Gen.Pickle.Date.pickle_reduce (instDate y m d) p)).bind rebuildDate = some (y, m, d) ∧
+    copiedDate (Gen.Pickle.Date.deepcopy (instDate y m d)) = some (y, m, d) := by
+  refine ⟨?_, ?_⟩
+  · rw [date_rebuild_args_source_eq_model _ _ (instDate_ok y m d)]; exact date_roundtrip y m d
+  · rw [(date_deepcopy_source_eq_model _ (instDate_ok y m d)).1]; exact date_roundtrip y m d
+
+/-! #### Duration, AbsoluteDuration -/
+
+/-- `Duration.__reduce__` as written — `(*timedelta.__reduce__(self), self.__dict__)`: the class, the base triple and the
+    *whole* instance dictionary — is the model's `reduceDur` -/
+theorem duration_reduce_source_eq_model {ρ : Type} (i : DurationInst ρ) (d : Dur) (p : Int) (ok : DurOk i d) :
+    absRedDur (Gen.Pickle.Duration.pickle_reduce i p) = some (reduceDur d) ∧
+    (Gen.Pickle.Duration.pickle_reduce i p).rest = [.dict i.dict] :=
+  Duration.reduce_source_eq_model i d p ok
+
+theorem duration_rebuild_args_source_eq_model {ρ : Type} (i : DurationInst ρ) (d : Dur) (p : Int) (ok : DurOk i d) :
+    (absRedDur (Gen.Pickle.Duration.pickle_reduce i p)).map rebuildDur = some (rebuildDur (reduceDur d)) ∧
+    (Gen.Pickle.Duration.pickle_reduce i p).callable = .selfClass ∧
+    (Gen.Pickle.Duration.pickle_reduce i p).args = [.int d.base.d, .int d.base.s, .int d.base.us] :=
+  Duration.rebuild_args_source_eq_model i d p ok
+
+/-- `Duration.__deepcopy__` as written: the class with `days=remaining_days, seconds=remaining_seconds, microseconds=,
+    minutes=, hours=, weeks=, years=, months=` — the model's `deepcopyDur` -/
+theorem duration_deepcopy_source_eq_model {ρ : Type} (i : DurationInst ρ) (d : Dur) (ok : DurOk i d) :
+    copiedDur Dur.new rebuildDur (Gen.Pickle.Duration.deepcopy i) = some (deepcopyDur d) ∧
+    copiedDur Dur.new rebuildDur (Gen.Pickle.Duration.copy i) = some (rebuildDur (reduceDur d)) :=
+  Duration.deepcopy_source_eq_model i d ok
+
+theorem absduration_reduce_source_eq_model {ρ : Type} (i : DurationInst ρ) (d : Dur) (p : Int) (ok : DurOk i d) :
+    absRedDur (Gen.Pickle.AbsoluteDuration.pickle_reduce i p) = some (reduceDur d) ∧
+    (Gen.Pickle.AbsoluteDuration.pickle_reduce i p).rest = [.dict i.dict] :=
+  AbsoluteDuration.reduce_source_eq_model i d p ok
+
+theorem absduration_rebuild_args_source_eq_model {ρ : Type} (i : DurationInst ρ) (d : Dur) (p : Int) (ok : DurOk i d) :
+    (absRedDur (Gen.Pickle.AbsoluteDuration.pickle_reduce i p)).map rebuildAbs = some (rebuildAbs (reduceDur d)) ∧
+    (Gen.Pickle.AbsoluteDuration.pickle_reduce i p).callable = .selfClass ∧
+    (Gen.Pickle.AbsoluteDuration.pickle_reduce i p).args = [.int d.base.d, .int d.base.s, .int d.base.us] :=
+  AbsoluteDuration.rebuild_args_source_eq_model i d p ok
+
+/-- `AbsoluteDuration.__deepcopy__` as written is `copy.copy(self)`, i.e. the reduce path — the model's `deepcopyAbs` -/
+theorem absduration_deepcopy_source_eq_model {ρ : Type} (i : DurationInst ρ) (d : Dur) (ok : DurOk i d) :
+    copiedDur AbsDur.new rebuildAbs (Gen.Pickle.AbsoluteDuration.deepcopy i) = some (deepcopyAbs d) ∧
+    copiedDur AbsDur.new rebuildAbs (Gen.Pickle.AbsoluteDuration.copy i) = some (rebuildAbs (reduceDur d)) :=
+  AbsoluteDuration.deepcopy_source_eq_model i d ok
+
+/-- the hypotheses are satisfiable for every model value -/
+theorem duration_hypotheses_satisfiable (d : Dur) : DurOk (instDur d) d := instDur_ok d
+
+/-- headline, over the generated hooks: a Duration built from any integer arguments survives pickle / copy / deepcopy -/
+theorem dur_roundtrip_generated (days seconds micros millis minutes hours weeks years months p : Int) :
+    let d := Dur.new days seconds micros millis minutes hours weeks years months
+    ((absRedDur (Gen.Pickle.Duration.pickle_reduce (instDur d) p)).map rebuildDur).map Dur.obs = some d.obs ∧
+    (copiedDur Dur.new rebuildDur (Gen.Pickle.Duration.copy (instDur d))).map Dur.obs = some d.obs ∧
+    (copiedDur Dur.new rebuildDur (Gen.Pickle.Duration.deepcopy (instDur d))).map Dur.obs = some d.obs := by
+  intro d
+  have ok := instDur_ok d
+  refine ⟨?_, ?_, ?_⟩
+  · rw [(duration_rebuild_args_source_eq_model _ d p ok).1]; exact congrArg (fun x => some (Dur.obs x)) (dur_reduce_roundtrip ..)
+  · rw [(duration_deepcopy_source_eq_model _ d ok).2]; exact congrArg (fun x => some (Dur.obs x)) (dur_reduce_roundtrip ..)
+  · rw [(duration_deepcopy_source_eq_model _ d ok).1]; exact congrArg (fun x => some (Dur.obs x)) (dur_deepcopy_roundtrip ..)
+
+theorem absdur_roundtrip_generated (days seconds micros millis minutes hours weeks years months p : Int) :
+    let d := AbsDur.new days seconds micros millis minutes hours weeks years months
+    ((absRedDur (Gen.Pickle.AbsoluteDuration.pickle_reduce (instDur d) p)).map rebuildAbs).map Dur.absObs = some d.absObs ∧
+    (copiedDur AbsDur.new rebuildAbs (Gen.Pickle.AbsoluteDuration.copy (instDur d))).map Dur.absObs = some d.absObs ∧
+    (copiedDur AbsDur.new rebuildAbs (Gen.Pickle.AbsoluteDuration.deepcopy (instDur d))).map Dur.absObs = some d.absObs := by
+  intro d
+  have ok := instDur_ok d
+  refine ⟨?_, ?_, ?_⟩
+  · rw [(absduration_rebuild_args_source_eq_model _ d p ok).1]
+    exact congrArg (fun x => some (Dur.absObs x)) (absdur_reduce_roundtrip ..)
+  · rw [(absduration_deepcopy_source_eq_model _ d ok).2]
+    exact congrArg (fun x => some (Dur.absObs x)) (absdur_reduce_roundtrip ..)
+  · rw [(absduration_deepcopy_source_eq_model _ d ok).1]
+    exact congrArg (fun x => some (Dur.absObs x)) (absdur_deepcopy_roundtrip ..)
+
+example : (Gen.Pickle.Duration.pickle_reduce (instDur (Dur.new 3 0 0 0 0 0 0 1 2)) 2).args = [.int 428, .int 0, .int 0] := by decide
+example : (copiedDur Dur.new rebuildDur (Gen.Pickle.Duration.deepcopy (instDur (Dur.new 3 0 0 0 0 0 2 0 0)))).map (·.st.weeks) = some 2 := by decide
+
+/-! #### Interval -/
+
+/-- `Interval._getstate` as written (swap undone when inverted and absolute) under `__reduce_ex__` — the model's `reduceIv` -/
+theorem interval_reduce_source_eq_model (i : IntervalInst DT) (len : Int) (same : Bool) (p : Int) :
+    absRedIv (Gen.Pickle.Interval.pickle_reduce i p) = some (reduceIv (ivOf i len same)) ∧
+    Gen.Pickle.Interval.__reduce__ i = Gen.Pickle.Interval.pickle_reduce i 2 :=
+  Interval.reduce_source_eq_model i len same p
+
+theorem interval_rebuild_args_source_eq_model (f : DT → DT) (i : IntervalInst DT) (len : Int) (same : Bool) (p : Int) :
+    applyIv f same (Gen.Pickle.Interval.pickle_reduce i p) = some (rebuildIv f same (reduceIv (ivOf i len same))) :=
+  Interval.rebuild_args_source_eq_model f i len same p
+
+/-- `Interval.__deepcopy__` as written: the class on *deep copies* of `_getstate()`'s endpoints and the absolute flag -/
+theorem interval_deepcopy_source_eq_model (i : IntervalInst DT) (len : Int) (same : Bool) :
+    copiedIv same (Gen.Pickle.Interval.deepcopy i) = some (rebuildIv deepcopyDT same (reduceIv (ivOf i len same))) ∧
+    copiedIv same (Gen.Pickle.Interval.copy i) = some (rebuildIv id same (reduceIv (ivOf i len same))) :=
+  Interval.deepcopy_source_eq_model i len same
+
+/-- headline, over the generated hooks: an Interval built from any endpoints survives pickle / copy / deepcopy -/
+theorem iv_roundtrip_generated (same : Bool) (s e : DT) (a : Bool) (p : Int) :
+    let v := mkIv same s e a
+    (applyIv pickleDT same (Gen.Pickle.Interval.pickle_reduce (instIv v) p)).map Iv.obs = some v.obs ∧
+    (copiedIv same (Gen.Pickle.Interval.copy (instIv v))).map Iv.obs = some v.obs ∧
+    (copiedIv same (Gen.Pickle.Interval.deepcopy (instIv v))).map Iv.obs = some v.obs := by
+  intro v
+  have hv : ivOf (instIv v) v.len same = v := ivOf_instIv v
+  refine ⟨?_, ?_, ?_⟩
+  · rw [interval_rebuild_args_source_eq_model pickleDT (instIv v) v.len same p, hv]
+    exact congrArg some (iv_pickle same s e a)
+  · rw [(interval_deepcopy_source_eq_model (instIv v) v.len same).2, hv]
+    exact congrArg some (iv_copy same s e a)
+  · rw [(interval_deepcopy_source_eq_model (instIv v) v.len same).1, hv]
+    exact congrArg some (iv_deepcopy same s e a)
+
+example : (absRedIv (Gen.Pickle.Interval.pickle_reduce (instIv (mkIv true vSecond vFirst true)) 2)).map (fun r => (r.1.fold, r.2.1.fold, r.2.2)) =
+    some (true, false, true) := by decide
+
+/-! #### FixedTimezone, Timezone, `fixed_timezone` -/
+
+/-- `FixedTimezone.__getinitargs__` as written, under the inherited `tzinfo.__reduce__` (hypothesis `FixedOk`): the
+    model's `reduceTz` — constructor arguments `(_offset, _name)` and the instance dict on top -/
+theorem fixedtimezone_reduce_source_eq_model {ρ : Type} (i : FixedTimezoneInst ρ) (p : Int) (ok : FixedOk i) :
+    absRedFixed (Gen.Pickle.FixedTimezone.pickle_reduce i p) = some (reduceTz (.fixed i._offset i._name)) :=
+  FixedTimezone.reduce_source_eq_model i p ok
+
+theorem fixedtimezone_rebuild_args_source_eq_model {ρ : Type} (i : FixedTimezoneInst ρ) (p : Int) (ok : FixedOk i) :
+    (absRedFixed (Gen.Pickle.FixedTimezone.pickle_reduce i p)).map rebuildTz =
+      some (rebuildTz (reduceTz (.fixed i._offset i._name))) ∧
+    (Gen.Pickle.FixedTimezone.pickle_reduce i p).args = [.int i._offset, .str i._name] :=
+  FixedTimezone.rebuild_args_source_eq_model i p ok
+
+theorem fixedtimezone_deepcopy_source_eq_model {ρ : Type} (i : FixedTimezoneInst ρ) (ok : FixedOk i) :
+    copiedTz absRedFixed (Gen.Pickle.FixedTimezone.deepcopy i) = some (rebuildTz (reduceTz (.fixed i._offset i._name))) ∧
+    copiedTz absRedFixed (Gen.Pickle.FixedTimezone.copy i) = some (rebuildTz (reduceTz (.fixed i._offset i._name))) :=
+  FixedTimezone.deepcopy_source_eq_model i ok
+
+/-- `Timezone` defines no hook: `zoneinfo.ZoneInfo.__reduce__` = `(cls._unpickle, (key, from_cache))` (hypothesis `NamedOk`) -/
+theorem timezone_reduce_source_eq_model {ρ : Type} (i : TimezoneInst ρ) (z : Z) (p : Int) (ok : NamedOk i) :
+    absRedNamed z (Gen.Pickle.Timezone.pickle_reduce i p) = some (reduceTz (.named i.key z)) :=
+  Timezone.reduce_source_eq_model i z p ok
+
+theorem timezone_rebuild_args_source_eq_model {ρ : Type} (i : TimezoneInst ρ) (z : Z) (p : Int) (ok : NamedOk i) :
+    (absRedNamed z (Gen.Pickle.Timezone.pickle_reduce i p)).map rebuildTz = some (.named i.key z) :=
+  Timezone.rebuild_args_source_eq_model i z p ok
+
+theorem timezone_deepcopy_source_eq_model {ρ : Type} (i : TimezoneInst ρ) (z : Z) (ok : NamedOk i) :
+    copiedTz (absRedNamed z) (Gen.Pickle.Timezone.deepcopy i) = some (.named i.key z) ∧
+    copiedTz (absRedNamed z) (Gen.Pickle.Timezone.copy i) = some (.named i.key z) :=
+  Timezone.deepcopy_source_eq_model i z ok
+
+theorem tz_hypotheses_satisfiable (o : Int) (n : Pickle.Str) : FixedOk (instFixed o n) ∧ NamedOk (instNamed n) :=
+  ⟨instFixed_ok o n, instNamed_ok n⟩
+
+/-- headline, over the generated hooks: a FixedTimezone (any offset, any name) comes back unchanged from pickle / copy /
+    deepcopy -/
+theorem fixedtimezone_roundtrip_generated (o : Int) (n : Pickle.Str) (p : Int) :
+    (absRedFixed (Gen.Pickle.FixedTimezone.pickle_reduce (instFixed o n) p)).map rebuildTz = some (.fixed o n) ∧
+    copiedTz absRedFixed (Gen.Pickle.FixedTimezone.deepcopy (instFixed o n)) = some (.fixed o n) ∧
+    copiedTz absRedFixed (Gen.Pickle.FixedTimezone.copy (instFixed o n)) = some (.fixed o n) := by
+  have ok := instFixed_ok o n
+  refine ⟨?_, ?_, ?_⟩
+  · rw [(fixedtimezone_rebuild_args_source_eq_model _ p ok).1]; exact congrArg some (tz_roundtrip _)
+  · rw [(fixedtimezone_deepcopy_source_eq_model _ ok).1]; exact congrArg some (tz_roundtrip _)
+  · rw [(fixedtimezone_deepcopy_source_eq_model _ ok).2]; exact congrArg some (tz_roundtrip _)
+
+example : (Gen.Pickle.FixedTimezone.pickle_reduce (instFixed 3600 [102, 111, 111]) 2).args = [.int 3600, .str [102, 111, 111]] := rfl
+
+/-- `fixed_timezone` as written: the cached object when `_tz_cache` has one, else a fresh `FixedTimezone(offset)` that is
+    stored — so asking twice gives the same object (what `Interval` relies on for `start.tzinfo is end.tzinfo`) -/
+theorem fixed_timezone_source_eq_model {ρ : Type} (new : List (Val ρ) → ρ) (cache : List (Int × ρ)) (o : Int) :
+    Gen.Pickle.fixed_timezone new cache o = internSpec (fun o => new [.int o]) cache o ∧
+    Gen.Pickle.fixed_timezone new (Gen.Pickle.fixed_timezone new cache o).2 o = Gen.Pickle.fixed_timezone new cache o := by
+  refine ⟨PickleGen.fixed_timezone_source_eq_model new cache o, ?_⟩
+  rw [PickleGen.fixed_timezone_source_eq_model, PickleGen.fixed_timezone_source_eq_model]
+  exact internSpec_interns _ cache o
+
+example : (Gen.Pickle.fixed_timezone (fun a => a.length) [] 3600).2 = [(3600, 1)] := rfl
+example : (Gen.Pickle.fixed_timezone (fun a => a.length) [(3600, 7)] 3600) = (some 7, [(3600, 7)]) := rfl
+
+/-- object-level code outside the translated subset, recorded verbatim: any edit changes a generated string -/
+theorem tz_constructors_pinned :
+    (Gen.Pickle.FixedTimezone_init_source = expectedFixedInit ∧ Gen.Pickle.FixedTimezone_repr_source = expectedFixedRepr) ∧
+    (Gen.Pickle.Timezone_new_source = expectedNamedNew ∧ Gen.Pickle.Timezone_repr_source = expectedNamedRepr) :=
+  ⟨FixedTimezone.init_repr_pinned, Timezone.new_repr_pinned⟩
+
+end Generated
 
 end Pendulum.Props.C14
